@@ -143,6 +143,29 @@ func ext۰reflect۰rtype۰Size(fr *frame, args []value) value {
 	return uintptr(fr.i.sizes.Sizeof(args[0].(rtype).t))
 }
 
+func ext۰reflect۰rtype۰Comparable(fr *frame, args []value) value {
+	// Signature: func (t reflect.rtype) bool — the static notion: structs/arrays of comparable
+	// parts and interfaces are "comparable" even though == may panic on their dynamic contents.
+	return types.Comparable(args[0].(rtype).t)
+}
+
+func ext۰reflect۰rtype۰Name(fr *frame, args []value) value {
+	if n, ok := args[0].(rtype).t.(*types.Named); ok {
+		return n.Obj().Name()
+	}
+	if b, ok := args[0].(rtype).t.(*types.Basic); ok {
+		return b.Name()
+	}
+	return ""
+}
+
+func ext۰reflect۰rtype۰PkgPath(fr *frame, args []value) value {
+	if n, ok := args[0].(rtype).t.(*types.Named); ok && n.Obj().Pkg() != nil {
+		return n.Obj().Pkg().Path()
+	}
+	return ""
+}
+
 func ext۰reflect۰rtype۰String(fr *frame, args []value) value {
 	// Signature: func (t reflect.rtype) string
 	return args[0].(rtype).t.String()
@@ -566,6 +589,9 @@ func initReflect(i *interpreter) {
 		"Out":       newMethod(i.reflectPackage, rtypeType, "Out"),
 		"Size":      newMethod(i.reflectPackage, rtypeType, "Size"),
 		"String":    newMethod(i.reflectPackage, rtypeType, "String"),
+		"Comparable": newMethod(i.reflectPackage, rtypeType, "Comparable"),
+		"Name":       newMethod(i.reflectPackage, rtypeType, "Name"),
+		"PkgPath":    newMethod(i.reflectPackage, rtypeType, "PkgPath"),
 	}
 	i.errorMethods = methodSet{
 		"Error": newMethod(i.reflectPackage, errorType, "Error"),
